@@ -75,9 +75,13 @@ def gen_enum_v0(d, expanded, H):
     out.append(H['gen_metadata'](static, H['metadata_steps'](expanded, static)))
     lits = set()
     for v in d['variants']:
-        if not v['transient']:
-            cs = ('%s_%s_metadata' % (X, v['name'])).upper()
+        # per-case metadata static, where the expansion has one (a case that gets none and still
+        # names it fails to resolve in Verus; a case that needs none is verified without it)
+        cs = ('%s_%s_metadata' % (X, v['name'])).upper()
+        try:
             out.append(H['gen_metadata'](cs, H['metadata_steps'](expanded, cs)))
+        except rx.Lost:
+            pass
         for f in v['fields']:
             lits.add(f['name'])
     n = len(d['variants'])
@@ -111,12 +115,22 @@ def gen_enum_v0(d, expanded, H):
     # ---- serializer body: closures get their contract (E12)
     b = H['norm_paths'](H['impl_fn'](expanded, 'BinarySerializer', X))
     for v in d['variants']:
-        if v['transient']:
-            continue
         ok, enc, tn, vwf = case_terms(v, 'old(context).state.strs()')
         # the arm of this variant, then its write_constructor(<any index literal>, |context| {
         arm = re.compile(r'%s::%s\b[^=]*=>\s*\{\s*serializer\.write_constructor\(\d+usize as u32,\s*\|context\|(\s*)\{' % (re.escape(X), re.escape(v['name'])))
         mm = arm.search(b)
+        if v['transient']:
+            if not mm:
+                continue
+            # a transient constructor that nevertheless gets a writer: the closure is given the
+            # weakest contract, the arm is then judged by the postcondition of `serialize`
+            ann = ('|context: &mut SerializationContext<Output>| -> (cr: Result<()>)\n'
+                   '    requires old(context).owf(),\n'
+                   '    ensures final(context).owf(), cr is Ok ==> final(context).orest().lower == old(context).orest().lower,\n'
+                   '{')
+            seg = b[mm.start():mm.end()]
+            b = b[:mm.start()] + re.sub(r'\|context\|(\s*)\{$', lambda m2: ann, seg) + b[mm.end():]
+            continue
         if not mm:
             raise rx.Lost('serialize of %s: match arm with write_constructor for variant %s not found' % (X, v['name']))
         ann = ('|context: &mut SerializationContext<Output>| -> (cr: Result<()>)\n'
@@ -126,7 +140,7 @@ def gen_enum_v0(d, expanded, H):
         seg = b[mm.start():mm.end()]
         seg2 = re.sub(r'\|context\|(\s*)\{$', lambda m2: ann, seg)
         b = b[:mm.start()] + seg2 + b[mm.end():]
-    b = b.replace('{', '{\n        broadcast use {lemma_wf_v0_b, lemma_swrote_trans_b, lemma_swrote_facts_b};\n        proof { reveal_strlits(); }', 1)
+    b = b.replace('{', '{\n        broadcast use {lemma_wf_v0_b, lemma_swrote_trans_b, lemma_swrote_facts_b, lemma_swrote_wrote_b};\n        proof { reveal_strlits(); }', 1)
     out.append(SER_TMPL % dict(X=X, idx=', '.join(arms_idx), ok=', '.join(arms_ok), enc=', '.join(arms_enc),
                                tbl=', '.join(arms_tbl), vwf=', '.join(arms_vwf), body=b))
     # ---- deserializer: emitted as an inherent fn (E9-like) with the C13 contract
